@@ -415,6 +415,10 @@ class AWorld:
                     conn.contract.append('websocket.send bytes is %s' % type(b).__name__)
                 elif x is not None and not isinstance(x, str):
                     conn.contract.append('websocket.send text is %s' % type(x).__name__)
+                if getattr(conn, 'fail_next_send', 0):
+                    conn.fail_next_send -= 1    # one write fails, the connection itself survives
+                    conn.soft_failed_at = self.clock.now
+                    raise OSError('write failed (scripted, transient)')
                 if conn.failed:
                     # the network path is dead: what the server writes now reaches nobody, and
                     # the gateway says so (as uvicorn does with ClientDisconnected, an OSError;
@@ -464,6 +468,9 @@ class AWorld:
     def ws_client_close(self, conn):
         conn.peer_closed = True
         self._push(conn, {'type': 'websocket.disconnect', 'code': 1000})
+
+    def ws_fail_next_send(self, conn):
+        conn.fail_next_send = getattr(conn, 'fail_next_send', 0) + 1
 
     def ws_fail(self, conn):
         conn.failed = True
